@@ -363,7 +363,7 @@ def check_C01(ctx):
     planner_family(ctx, "C01", qdeps=1)
     exec_family(ctx, "C01", extra=["--ppanic", 0.12], mc=("flat",), mc_thorough=("flat2", "batch", "deps"))
     exec_s2i(ctx, "C01", maxforce=1500 if ctx.quick() else 17000)
-    async_stage(ctx, ["InvC01x"], 40 if ctx.quick() else 400, extra=["--ppanic", 0.3])
+    async_stage(ctx, ["InvC01x"], 80 if ctx.quick() else 600, extra=["--ppanic", 0.35])
 
 
 def check_C02(ctx):
@@ -380,7 +380,7 @@ def check_C03(ctx):
                 extra=["--chain", 2 if ctx.quick() else 10, "--pill", 0.12, "--pbarrier", 0.25], seed_off=7)
     exec_family(ctx, "C03", extra=["--pbarrier", 0.2, "--ppanic", 0.15], mc=("deps",), mc_thorough=("flat2",))
     exec_s2i(ctx, "C03", maxforce=1500 if ctx.quick() else 17000)
-    async_stage(ctx, ["InvC03x"], 40 if ctx.quick() else 400, extra=["--ppanic", 0.3, "--pbarrier", 0.2])
+    async_stage(ctx, ["InvC03x"], 80 if ctx.quick() else 600, extra=["--ppanic", 0.35, "--pbarrier", 0.2])
 
 
 def check_C04(ctx):
@@ -395,7 +395,7 @@ def check_C05(ctx):
     # (only parallel mode is forced: the model lets dispatch_seq take the groups in any order, the code takes storage order)
     exec_s2i(ctx, "C05", res="{1}" if ctx.quick() else "{1,2}", times="{1,3}", modes='{"par"}', maxforce=2000 if ctx.quick() else 30000)
     # asynchronous dispatch is a parallel dispatch too: nothing lost, nothing overtaken, values as computed by the spec
-    async_stage(ctx, ["InvC05", "InvC15"], 40 if ctx.quick() else 400)
+    async_stage(ctx, ["InvC05", "InvC15"], 80 if ctx.quick() else 600, extra=["--ppanic", 0.2])
 
 
 def check_C07(ctx):
@@ -494,7 +494,7 @@ def check_C13(ctx):
         ctx.cov["traces_validated_against_impl"] += st["programs"]
         validate_blocks(ctx, "ShredTrace", out, ["InvC13", "InvStruct"], classify=classify_block)
     # AsyncDispatcher::setup (also while a dispatch is in flight: it must wait and then reach everything)
-    async_stage(ctx, ["InvC13", "InvC15"], 40 if ctx.quick() else 400, extra=["--setuplog", "--ptl", 0.15])
+    async_stage(ctx, ["InvC13", "InvC15"], 70 if ctx.quick() else 500, extra=["--setuplog", "--ptl", 0.15])
     # the library's own SystemData setup code (Read/Write/Option/Expect, tuples, derive): contributed stage
     try:
         import props_sysdata
@@ -556,9 +556,9 @@ def check_C15(ctx):
     invs = ["InvC15", "InvC04x", "InvC12"]
     # wide stages on pools of 1..3 workers: every ordinary system exactly once per dispatch
     async_stage(ctx, invs, 40 if ctx.quick() else 400, extra=["--nmin", 8, "--nmax", 30, "--nres", 12, "--calls", 8, "--pbatch", 0.0], seed_off=3)
-    for (cnt, calls, off) in ([(60, 12, 0)] if ctx.quick() else [(600, 16, 0), (100, 30, 1)]):
+    for (cnt, calls, off) in ([(100, 12, 0)] if ctx.quick() else [(800, 16, 0), (100, 30, 1)]):
         out = ctx.fresh("as", "ndjson")
-        st = run_bin(ctx, "exec", ["async", "--seed", ctx.seed * 1000 + off, "--count", cnt, "--calls", calls, "--ppanic", 0.15,
+        st = run_bin(ctx, "exec", ["async", "--seed", ctx.seed * 1000 + off, "--count", cnt, "--calls", calls, "--ppanic", 0.3,
                                    "--out", out], timeout=1800)
         ctx.cov["impl_runs"].append({"kind": "impl->spec async dispatcher sessions (caller call sequences, background systems held inside run)",
                                      "programs": st["programs"], "calls": st["calls"], "events": st["events"]})
